@@ -14,7 +14,7 @@ prop = Prop(
         "programs as in C04/C05 (all block kinds incl. loops and schedule+execute) run to completion under a drawn schedule; "
         "afterwards every data token on every port must be persisted on that port and its recorded dependees must equal the set "
         "predicted by a rule table per step type (transformer/conditional: same-tag inputs; scatter: the list token; gather: size "
-        "token + elements; dot product: the prefix-matching token of every port; loop combinator: previous iteration; loop output: "
+        "token + elements; dot product: the prefix-matching token of every port; cartesian product: the indexed element of every port; loop combinator: previous iteration; loop output: "
         "all collected iteration tokens; schedule: inputs + connector tokens; execute: inputs + job token); the relation must be "
         "acyclic with dependee id < depender id and reference only existing tokens. Non-trivial = >= 5 data tokens with >= 1 "
         "multi-parent token; distinct by the whole case."
@@ -24,7 +24,7 @@ prop = Prop(
 )
 prop.engine = "detloop"
 
-ALL_OPS = ("map", "zip", "scatter", "gather", "cond", "loop", "exec")
+ALL_OPS = ("map", "zip", "scatter", "gather", "cond", "loop", "exec", "cross")
 case_strategy = st.fixed_dictionaries({"prog": progs.program_strategy(ops=ALL_OPS), "schedule": progs.schedule_strategy})
 
 
@@ -43,7 +43,8 @@ def expected_dependees(step, port_name_role, t, wf):
     """Return the list of tokens `t` (found on an output/skip port of `step`) must depend on if this
     step produced it, or None if this step cannot have produced it. Independent model, keyed by
     step type; uses only the (port, tag) structure of the tokens actually present."""
-    from streamflow.workflow.combinator import LoopTerminationCombinator
+    from streamflow.cwl.transformer import CloneTransformer
+    from streamflow.workflow.combinator import CartesianProductCombinator, LoopTerminationCombinator
     from streamflow.workflow.port import ConnectorPort, JobPort
     from streamflow.workflow.step import (
         CombinatorStep, ConditionalStep, DeployStep, ExecuteStep, GatherStep, LoopCombinatorStep, LoopOutputStep,
@@ -87,6 +88,18 @@ def expected_dependees(step, port_name_role, t, wf):
     if isinstance(step, CombinatorStep):
         if isinstance(step.combinator, LoopTerminationCombinator):
             return None  # emits control tokens only
+        if isinstance(step.combinator, CartesianProductCombinator):
+            # output tag = group tag + one index per item (in item order); item k's input is group.index_k
+            items = list(step.combinator.items)
+            parts = t.tag.split(".")
+            group, idxs = parts[: -len(items)], parts[-len(items):]
+            deps = []
+            for n, i in zip(items, idxs, strict=True):
+                m = [x for x in ins[n] if x.tag == ".".join([*group, i])]
+                if len(m) != 1:
+                    return None
+                deps.append(m[0])
+            return deps
         deps = []
         for n in ins:
             m = [x for x in ins[n] if _is_prefix(x.tag, t.tag)]
@@ -129,6 +142,15 @@ def expected_dependees(step, port_name_role, t, wf):
         if port_name_role == "skip":
             return None if took_true else deps
         return deps if took_true else None
+    if isinstance(step, CloneTransformer):
+        parent = t.tag.rsplit(".", 1)[0]
+        deps = []
+        for n in ins:
+            m = [x for x in ins[n] if x.tag == parent]
+            if len(m) != 1:
+                return None
+            deps.append(m[0])
+        return deps
     if isinstance(step, Transformer):
         return same_tag([n for n in ins if n != "__job__"])
     raise HarnessError(f"no provenance rule for step type {type(step).__name__}")
